@@ -86,8 +86,26 @@ struct Env {
 }
 
 fn chunk_table(k: &K, raw: &[u8], sks: &[[u8; 32]]) -> Option<(Vec<(usize, usize)>, usize)> {
-    let d = fmt::decode_archive(k, raw, sks).ok()?;
-    Some((d.enc_chunks.iter().map(|c| (d.header.len + c.off, c.len)).collect(), d.header.len))
+    if let Ok(d) = fmt::decode_archive(k, raw, sks) {
+        return Some((d.enc_chunks.iter().map(|c| (d.header.len + c.off, c.len)).collect(), d.header.len));
+    }
+    // the independent decoder refuses the archive (reported elsewhere): the chunk grid is still known
+    // from the format alone (header, then chunks of CHUNK bytes each followed by a 16-byte tag)
+    let hl = fmt::dec_header(raw).ok()?.len;
+    let ct = k.chunk_tag() as usize;
+    let body = raw.len().checked_sub(hl)?;
+    let mut v = Vec::new();
+    let mut off = hl;
+    while off < raw.len() {
+        let seg = ct.min(raw.len() - off);
+        if seg < 16 {
+            return None;
+        }
+        v.push((off, seg - 16));
+        off += seg;
+    }
+    let _ = body;
+    Some((v, hl))
 }
 
 fn apply(env: &Env, a: &Alt) -> Vec<Vec<u8>> {
@@ -387,6 +405,24 @@ pub fn cases(ctx: &Ctx) -> Vec<Case> {
     let k = ctx.k;
     let mut rng = Rng::derive(ctx.seed, &[0xC03]);
     let mut v = Vec::new();
+    // more than 256 (and, scaled, more than 65536 would be too long) chunks: whole chunks exchanged or
+    // copied at distances 128, 255, 256, 257 - a chunk counter taken modulo a power of two shows there
+    {
+        let p = single_file(1, 1, Sz::new(0, 259, 100), DataKind::Random, ctx.seed ^ 0x256);
+        let far = vec![
+            Alt::None,
+            Alt::ChunkSwap(1, 257),
+            Alt::ChunkSwap(0, 256),
+            Alt::ChunkSwap(2, 258),
+            Alt::ChunkCopy { from: 257, to: 1 },
+            Alt::ChunkCopy { from: 3, to: 259 },
+            Alt::ChunkSwap(1, 129),
+            Alt::ChunkSwap(1, 256),
+            Alt::ChunkSwap(1, 258),
+            Alt::TagSwap(1, 257),
+        ];
+        v.push(Case { prog: p, sel: AltSel::List(far), seg: (0, 1) });
+    }
     let mut sizes = crate::gen::small_sizes();
     sizes.extend([Sz::new(0, 1, -17), Sz::new(0, 1, 0), Sz::new(0, 2, 3)]);
     if !k.is_prod() {
@@ -481,6 +517,17 @@ pub fn run_case(ctx: &mut Ctx, c: &Case) {
         q
     };
     let other = drv::build_for_keys(&other_prog, &k, p).ok().and_then(|b| chunk_table(&k, &b.raw, &pr.sks).map(|(c, hl)| (b.raw, c, hl)));
+    // "unaltered archives always open": also when the source hands the bytes over in short reads
+    if c.seg.0 == 0 {
+        let mut r0 = Rng::new(p.seed ^ 0x0A11);
+        let sched = if pr.raw.len() > 400_000 { drv::Sched::Max(4096) } else { drv::Sched::Cycle(7) };
+        match guarded(|| drv::read_all_from(drv::ThrottledSrc::new(&pr.raw, sched), &pr.sks, &mut r0)) {
+            Ok(Ok(got)) if drv::compare_maps(&pr.expected, &got).is_ok() => ctx.count("unaltered_archive_read_through_short_read_source"),
+            Ok(Ok(_)) => ctx.violation("C03", &format!("unaltered-archive-differs:short-read-source:layers{}", p.layers), json!({"case": {"prog": p, "sel": AltSel::List(vec![Alt::None]), "seg": (0, 1)}, "k": k.name()}), json!({})),
+            Ok(Err(e)) => ctx.violation("C03", &format!("unaltered-archive-refused:short-read-source:layers{}", p.layers), json!({"case": {"prog": p, "sel": AltSel::List(vec![Alt::None]), "seg": (0, 1)}, "k": k.name()}), json!({"error": e})),
+            Err((loc, msg)) => ctx.violation("C08", &format!("panic:{loc}"), json!({"case": {"prog": p, "sel": AltSel::List(vec![Alt::None]), "seg": (0, 1)}, "k": k.name()}), json!({"panic": msg})),
+        }
+    }
     let env = Env { pr, chunks, other };
     let all = alt_list(&env, &c.sel);
     let (si, sn) = c.seg;
@@ -498,6 +545,11 @@ pub fn run_case(ctx: &mut Ctx, c: &Case) {
         }
         for alt in apply(&env, a) {
             let changed = alt != env.pr.raw;
+            if let Alt::ChunkSwap(i, j) | Alt::ChunkCopy { from: i, to: j } = a {
+                if (i - j).abs() == 256 {
+                    ctx.count("musthit:whole_chunks_exchanged_at_distance_256");
+                }
+            }
             let loc = match a {
                 Alt::Flip { at, .. } | Alt::Set { at, .. } | Alt::Trunc(at) => at.refs.first().map_or("eof".to_string(), |r| r.kind.clone()),
                 _ => "chunks".to_string(),
